@@ -1054,6 +1054,18 @@ def rule_r4(chk, prog):
                         nums = ints_of([k_])
                         if len(nums) == 2:
                             tab[v_.value] = tuple(nums)
+                    elif isinstance(v_, (ast.Tuple, ast.List)) and \
+                            k_ is not None:
+                        # exponent width -> (significand width, name)
+                        names = [c.value for c in v_.elts
+                                 if isinstance(c, ast.Constant)
+                                 and c.value in FP_REF]
+                        nums = ints_of([k_]) + ints_of(
+                            [c for c in v_.elts
+                             if not (isinstance(c, ast.Constant)
+                                     and c.value in FP_REF)])
+                        if len(names) == 1 and len(nums) == 2:
+                            tab[names[0]] = tuple(nums)
     chk.check('C16.R4', 'mutators_fp.FPShortSort.mutations',
               f'abbreviation table {tab}', tab == FP_REF,
               f'FPShortSort abbreviates {tab}; SMT-LIB: {FP_REF}',
@@ -1349,6 +1361,39 @@ def rule_r6(chk, prog):
                                                                  'dict',
                                                                  'list')):
                 tables[name] = v
+    # a literal table that no function of the module ever writes is a
+    # constant, not per-input state
+    MUT = ('append', 'extend', 'add', 'update', 'clear', 'pop', 'remove',
+           'discard', 'insert', 'setdefault', 'popitem', 'sort')
+
+    def written(name):
+        for q_, f_ in m.funcs.items():
+            for x in ast.walk(f_):
+                if isinstance(x, (ast.Assign, ast.AugAssign, ast.Delete)):
+                    tg = x.targets if isinstance(
+                        x, (ast.Assign, ast.Delete)) else [x.target]
+                    for t in tg:
+                        b = t
+                        while isinstance(b, ast.Subscript):
+                            b = b.value
+                        if isinstance(b, ast.Name) and b.id == name:
+                            return True
+                if isinstance(x, ast.Call) and isinstance(
+                        x.func, ast.Attribute) and x.func.attr in MUT:
+                    b = x.func.value
+                    while isinstance(b, ast.Subscript):
+                        b = b.value
+                    if isinstance(b, ast.Name) and b.id == name:
+                        return True
+        return False
+
+    for name in list(tables):
+        v = tables[name]
+        nonempty = (isinstance(v, ast.Dict) and v.keys) or (
+            isinstance(v, (ast.Set, ast.List)) and v.elts)
+        if nonempty and not written(name):
+            chk.info('C16.R6', f'{name} is a constant table (never written)')
+            del tables[name]
     chk.floor('C16.R6', 'module-level tables', len(tables), 9)
     r = m.func('reset_information')
     gl = global_decls(r)
